@@ -11,6 +11,7 @@ E == IF Case.env.obj THEN AsEnv(Case.env) ELSE NoEnv
 P == IF Case.penv.obj THEN AsEnv(Case.penv) ELSE NoEnv
 Clauses == <<
   <<"EmittedValid", Case.env.obj /\ Valid(E) /\ Kind(E) = Case.want>>,
+  <<"EmittedPayload", Case.payloadEq>>,
   <<"ParserAccepts", Case.penv.obj>>,
   <<"RoundTripKind", Case.penv.obj /\ Case.env.obj => Kind(P) = Kind(E)>>,
   <<"RoundTripId", Case.penv.obj => Case.idEq>>,
